@@ -599,4 +599,187 @@ theorem mergeConds_lookup (kw dc : List (String × Cond)) (k : String) :
 example : mergeConds [("a", .isNone), ("b", .isNaN)] [("b", .isNone), ("c", .isNaN), ("b", .oneOf [])] =
     [("a", .isNone), ("b", .oneOf []), ("c", .isNaN)] := by rfl
 
+/-! ### `one_or_none` (round k1: it was sampled by a law only) -/
+
+theorem rowD_eq_rowDict (t : Table) (i : Nat) : t.rowD i = rowDict t i := rfl
+
+/-- positions of a list whose element satisfies `p`, read back through the list, are the filtered list -/
+theorem map_getD_filter_range (idx : List Nat) (p : Nat → Bool) :
+    ((List.range idx.length).filter fun j => p (idx[j]?.getD 0)).map (fun j => idx[j]?.getD 0) = idx.filter p := by
+  induction idx with
+  | nil => rfl
+  | cons a rest ih =>
+    rw [List.length_cons, List.range_succ_eq_map, List.filter_cons]
+    simp only [List.filter_map, List.getElem?_cons_zero, Option.getD_some]
+    have : ((List.range rest.length).filter ((fun j => p ((a :: rest)[j]?.getD 0)) ∘ Nat.succ)).map
+        ((fun j => (a :: rest)[j]?.getD 0) ∘ Nat.succ) = rest.filter p := by
+      simpa [Function.comp_def] using ih
+    rw [List.filter_cons]
+    split <;> simp [this]
+
+/-- the rows `one_or_none` looks at: those satisfying every condition and - when an `exc` dict is given - not all of its conditions -/
+def oneSel (t : Table) (n : Nat) (conds excs : List (String × Cond)) : List Nat :=
+  (List.range n).filter fun i => t.sat conds i && !(!excs.isEmpty && t.sat excs i)
+
+/-- `inc` followed by `exc` is ONE gather of the table at `oneSel` -/
+theorem one_or_none_rows (t : Table) (n : Nat) (hr : t.Rect n) (conds excs : List (String × Cond))
+    (hk : ∀ kc ∈ conds, t.has kc.1 = true) (hke : ∀ kc ∈ excs, t.has kc.1 = true) (find : Option String) :
+    t.oneOrNone Option.none conds excs find = oneOf (t.gatherRows (oneSel t n conds excs)) find := by
+  unfold oneOrNone
+  rw [inc_filter t n hr conds hk]
+  by_cases he : excs = []
+  · subst he
+    simp only [List.isEmpty_nil, if_true, oneSel, Bool.not_true, Bool.false_and, Bool.not_false, Bool.and_true]
+  · have hr' := gatherRows_rect t ((List.range n).filter (t.sat conds))
+    have hke' : ∀ kc ∈ excs, (t.gatherRows ((List.range n).filter (t.sat conds))).has kc.1 = true := by
+      intro kc hkc
+      obtain ⟨col, hcol⟩ := (has_iff_col? t kc.1).1 (hke kc hkc)
+      exact (has_iff_col? _ _).2 ⟨_, by rw [col?_gatherRows, hcol]; rfl⟩
+    have hie : excs.isEmpty = false := by cases excs <;> simp_all
+    simp only [hie, Bool.false_eq_true, if_false]
+    rw [exc_filter _ _ hr' excs he hke']
+    simp only
+    rw [gatherRows_gatherRows _ _ _ (by intro j hj; simpa using (List.mem_filter.1 hj).1)]
+    congr 2
+    have hsat : ∀ j, j ∈ List.range ((List.range n).filter (t.sat conds)).length →
+        (!(t.gatherRows ((List.range n).filter (t.sat conds))).sat excs j) =
+        (fun i => !t.sat excs i) (((List.range n).filter (t.sat conds)).getD j 0) := by
+      intro j hj
+      have hj' : j < ((List.range n).filter (t.sat conds)).length := by simpa using hj
+      rw [sat_gatherRows t _ excs hke j hj']
+      simp [List.getD_eq_getElem?_getD, hj']
+    rw [List.filter_congr hsat]
+    have hm := map_getD_filter_range ((List.range n).filter (t.sat conds)) (fun i => !t.sat excs i)
+    simp only [List.getD_eq_getElem?_getD]
+    rw [hm, List.filter_filter]
+    simp only [oneSel, hie, Bool.not_false, Bool.true_and]
+    apply List.filter_congr
+    intro i _
+    rw [Bool.and_comm]
+
+theorem nrows_gatherRows {t : Table} (hne : t ≠ []) (idx : List Nat) : (t.gatherRows idx).nrows = idx.length :=
+  nrows_of_rect (gatherRows_rect t idx) (gatherRows_ne_nil hne idx)
+
+/-- **one_or_none, no row**: `None` exactly when no row satisfies the conditions without satisfying the exclusion -/
+theorem one_or_none_none (t : Table) (n : Nat) (hr : t.Rect n) (hne : t ≠ []) (conds excs : List (String × Cond))
+    (hk : ∀ kc ∈ conds, t.has kc.1 = true) (hke : ∀ kc ∈ excs, t.has kc.1 = true) (find : Option String)
+    (h : oneSel t n conds excs = []) :
+    t.oneOrNone Option.none conds excs find = .ok .none := by
+  rw [one_or_none_rows t n hr conds excs hk hke, oneOf, nrows_gatherRows hne, h]
+  rfl
+
+/-- **one_or_none, one row** `i`: that row as a dict (every column, the cells of row `i`), or its `find` cell -/
+theorem one_or_none_one (t : Table) (n : Nat) (hr : t.Rect n) (hne : t ≠ []) (conds excs : List (String × Cond))
+    (hk : ∀ kc ∈ conds, t.has kc.1 = true) (hke : ∀ kc ∈ excs, t.has kc.1 = true) (find : Option String) (i : Nat)
+    (h : oneSel t n conds excs = [i]) :
+    t.oneOrNone Option.none conds excs find = pickRow (rowDict t i) find := by
+  rw [one_or_none_rows t n hr conds excs hk hke, oneOf, nrows_gatherRows hne, h, rowD_eq_rowDict,
+    rowDict_gatherRows t [i] 0 (by simp)]
+  rfl
+
+/-- **one_or_none, several rows**: ValueError, whatever `find` -/
+theorem one_or_none_many (t : Table) (n : Nat) (hr : t.Rect n) (hne : t ≠ []) (conds excs : List (String × Cond))
+    (hk : ∀ kc ∈ conds, t.has kc.1 = true) (hke : ∀ kc ∈ excs, t.has kc.1 = true) (find : Option String)
+    (h : 2 ≤ (oneSel t n conds excs).length) :
+    t.oneOrNone Option.none conds excs find = .error .value := by
+  rw [one_or_none_rows t n hr conds excs hk hke, oneOf, nrows_gatherRows hne]
+  simp only [gt_iff_lt]
+  rw [if_pos (by omega)]
+
+/-- the three cases are exhaustive and each is forced: the answer determines how many rows were selected -/
+theorem one_or_none_iff (t : Table) (n : Nat) (hr : t.Rect n) (hne : t ≠ []) (conds excs : List (String × Cond))
+    (hk : ∀ kc ∈ conds, t.has kc.1 = true) (hke : ∀ kc ∈ excs, t.has kc.1 = true) :
+    (t.oneOrNone Option.none conds excs Option.none = .ok .none ↔ oneSel t n conds excs = []) ∧
+    (t.oneOrNone Option.none conds excs Option.none = .error .value ↔ 2 ≤ (oneSel t n conds excs).length) ∧
+    (∀ r, t.oneOrNone Option.none conds excs Option.none = .ok (.row r) ↔ ∃ i, oneSel t n conds excs = [i] ∧ r = rowDict t i) := by
+  rcases hs : oneSel t n conds excs with _ | ⟨i, _ | ⟨j, rest⟩⟩
+  · rw [one_or_none_none t n hr hne conds excs hk hke _ hs]
+    simp
+  · rw [one_or_none_one t n hr hne conds excs hk hke _ i hs]
+    simp [pickRow, eq_comm]
+  · rw [one_or_none_many t n hr hne conds excs hk hke _ (by rw [hs]; simp)]
+    simp
+
+/-- `find = k` for a column `k` of the table: the cell of that column in the selected row (`d[k][i]`) -/
+theorem pickRow_find (t : Table) (i : Nat) (k : String) (col : List Cell) (hk : t.col? k = some col) (hne : k ≠ "") :
+    pickRow (rowDict t i) (some k) = .ok (.cell (col.getD i .none)) := by
+  have : (rowDict t i).lookup k = some (col.getD i .none) := by
+    unfold rowDict
+    induction t with
+    | nil => simp [Table.col?] at hk
+    | cons c rest ih =>
+      simp only [Table.col?, List.find?_cons] at hk
+      simp only [List.map_cons, List.lookup_cons]
+      by_cases hc : c.1 = k
+      · simp only [hc, beq_self_eq_true, Option.map_some, Option.some.injEq] at hk
+        simp [hc, hk]
+      · have hc' : (k == c.1) = false := by rw [beq_eq_false_iff_ne]; exact fun h => hc h.symm
+        have hc'' : (c.1 == k) = false := by simpa using hc
+        simp only [hc''] at hk
+        rw [hc']
+        exact ih hk
+  simp [pickRow, hne, this]
+
+/-- … and a `find` that is not a column raises KeyError (once exactly one row is selected) -/
+theorem pickRow_missing (t : Table) (i : Nat) (k : String) (hk : t.has k = false) (hne : k ≠ "") :
+    pickRow (rowDict t i) (some k) = .error .key := by
+  have : (rowDict t i).lookup k = Option.none := by
+    unfold rowDict
+    induction t with
+    | nil => rfl
+    | cons c rest ih =>
+      simp only [Table.has, List.any_cons, Bool.or_eq_false_iff] at hk
+      simp only [List.map_cons, List.lookup_cons]
+      have hc' : (k == c.1) = false := by
+        have := hk.1; rw [beq_eq_false_iff_ne] at this ⊢; exact fun h => this h.symm
+      rw [hc']
+      exact ih hk.2
+  simp [pickRow, hne, this]
+
+example : tbl.oneOrNone Option.none [("a", .isNone)] [] Option.none =
+    .ok (.row [("a", .none), ("b", .str "y")]) := rfl
+example : tbl.oneOrNone Option.none [] [("a", .oneOf [.int 1, .flt 4, .nan])] (some "b") = .error .value := rfl
+example : tbl.oneOrNone Option.none [("b", .oneOf [.str "x", .str "y"])] [("a", .isNone)] (some "a") = .ok (.cell (.int 1)) := rfl
+example : tbl.oneOrNone Option.none [("b", .oneOf [.int 7])] [] Option.none = .ok .none := rfl
+
+
+/-! ### callables returning something else than a bool (round k1) -/
+
+/-- python's falsy scalars -/
+def Falsy (c : Cell) : Prop := c = .none ∨ c = .bool false ∨ c = .int 0 ∨ c = .flt 0 ∨ c = .str ""
+
+/-- `bool(v)` is False exactly for `None`, `False`, `0`, `0.0` (and `-0.0`), `''` - NaN, ±inf, datetimes, every other number and
+every non-empty string are truthy -/
+theorem truthy_iff (c : Cell) : c.truthy = false ↔ Falsy c := by
+  unfold Falsy
+  cases c <;> simp [Cell.truthy]
+
+/-- **a callable returning any VALUE** `v (row)`: `inc` keeps exactly the records whose value is truthy, `exc` the falsy ones,
+and they partition the table (`partition_rowpred` with `q = truthy ∘ v`) -/
+theorem inc_rowval (t : Table) (n : Nat) (hr : t.Rect n) (hne : t ≠ []) (v : List (String × Cell) → Cell) :
+    t.inc (some fun t' i => .ok (v (rowDict t' i)).truthy) [] =
+      .ok (t.gatherRows ((List.range n).filter fun i => (v (rowDict t i)).truthy)) ∧
+    t.exc (some fun t' i => .ok (v (rowDict t' i)).truthy) [] =
+      .ok (t.gatherRows ((List.range n).filter fun i => !(v (rowDict t i)).truthy)) :=
+  ⟨inc_rowpred t n hr hne fun r => (v r).truthy, exc_rowpred t n hr hne fun r => (v r).truthy⟩
+
+/-- a row is dropped by `inc(f)` (kept by `exc(f)`) iff `f` returned one of the five falsy scalars on it -/
+theorem inc_rowval_mem (t : Table) (n : Nat) (v : List (String × Cell) → Cell) (i : Nat) :
+    i ∈ (List.range n).filter (fun i => (v (rowDict t i)).truthy) ↔ i < n ∧ ¬ Falsy (v (rowDict t i)) := by
+  rw [List.mem_filter, List.mem_range, ← truthy_iff]
+  simp
+
+/-- the menu's `lambda a: a`, `lambda a, b: a or b`, `lambda: c` ARE such callables: `Pred.eval` is the truthiness of the returned cell -/
+theorem pred_ident_eval (t : Table) (i : Nat) (a : String) (x : Cell) (h : t.cellAt i a = some x) :
+    (Pred.ident a).eval t i = .ok x.truthy := by
+  simp [Pred.eval, h]
+
+theorem pred_orElse_eval (t : Table) (i : Nat) (a b : String) (x y : Cell) (ha : t.cellAt i a = some x) (hb : t.cellAt i b = some y) :
+    (Pred.orElse a b).eval t i = .ok (if x.truthy then x else y).truthy := by
+  simp only [Pred.eval, ha, hb]
+  split <;> simp_all
+
+example : tbl.inc (some (Pred.ident "a").eval) [] = .ok [("a", [.int 1, .flt 4, .nan, .str "x1"]), ("b", [.str "x", .none, .str "xy", .int 2])] := by rfl
+example : tbl.exc (some (Pred.orElse "a" "b").eval) [] = .ok [("a", []), ("b", [])] := by rfl
+
 end Pyg.Props.C06
